@@ -1,6 +1,7 @@
 # -*- coding: utf-8 -*-
 """C03 — DataFrame.sort is a stable, key-ordered permutation of whole rows."""
 
+import numpy as np
 from hypothesis import strategies as st
 
 from . import build, gen, model
@@ -98,6 +99,15 @@ def nontrivial(plan):
 
 def check(plan, ctx):
     data = build.frame(plan["frame"])
+    # how the receiver came to be (derived from the plan hash so that old replays stay valid)
+    how = ["built", "built", "shallow_copy", "view_rows", "derived"][len(repr(plan["keys"])) % 5] if "receiver" not in plan else plan["receiver"]
+    if how == "shallow_copy":
+        data = data.copy()
+    elif how == "view_rows":
+        data = data._view_rows(np.arange(data.nrow))
+    elif how == "derived":
+        data = data.filter(np.ones(data.nrow, dtype=bool)).rename()
+    ctx.cls("receiver_" + how)
     _check_sort(plan, data, ctx)
     if plan.get("edits"):
         fp = {"n": plan["frame"]["n"], "cols": [dict(c, vals=list(c["vals"])) for c in plan["frame"]["cols"]]}
@@ -121,6 +131,9 @@ def _check_sort(plan, data, ctx, phase=""):
     kwargs = {k: d for k, d in plan["keys"]}
     out = ctx.call(phase + "sort", lambda: data.sort(**kwargs))
     rids = build.check_whole_rows(phase + "sort", out, src)
+    out2 = ctx.call(phase + "sort (second call)", lambda: data.sort(**kwargs))
+    if build.snap_frame(out2) != build.snap_frame(out):
+        raise Violation(phase + "sorting the same receiver a second time gives a different result")
     if sorted(rids) != list(range(n)):
         raise Violation(phase + "sort is not a permutation of the rows", rids=rids, nrow=n)
     cols = [[build.pcell(c["kind"], v) for v in c["vals"]] for c, _ in kc]
